@@ -76,12 +76,11 @@ structure T46Guard (c : Cfg) : Prop where
   /-- the task whose own generator yields a `call`/`wait` is an ordinary generator task of an existing event -/
   own : ∀ r t k w, c.stack = .ptOwn r t :: k → c.exn = none → c.ret.yield = .sub w →
     t.parent = none ∧ t.e < c.st.evs.length
-  /-- `_on_done` of a wait state runs on a started wait state; when its flag is already set (a second `_done` event of the
-      awaited event) the resumption task is still registered, i.e. `_on_done` does not run again after the resumption -/
+  /-- `_on_done` of a wait state runs on a started wait state (when its flag is already set - a second `_done` event of the
+      awaited event, or a stale invocation after the resumption - it does nothing since the fix
+      "waitEvent's _on_done does nothing once the awaited event is known to be done") -/
   done : ∀ r h e k w, c.stack = .invoke r h e :: k → c.exn = none → (c.st.handler h).kind = .waitDone w →
-    (c.st.wait w).started = true ∧ ((c.st.wait w).flag = true →
-      (⟨(c.st.wait w).taskEvent, (c.st.wait w).task, some (c.st.wait w).parentGen⟩ : Task) ∈
-        (c.st.comp (c.st.rootOf (c.st.wait w).owner)).tasks)
+    (c.st.wait w).started = true
   /-- `_on_tick` of a wait state runs on a started wait state -/
   tickh : ∀ r h e k w, c.stack = .invoke r h e :: k → c.exn = none → (c.st.handler h).kind = .waitTick w →
     (c.st.wait w).started = true
